@@ -267,6 +267,36 @@ def family_V(tier: str) -> Iterator[Prog]:
                 yield make_prog('V', _v_wrap(forl, ctx) + ['return (r, t, a)'], 'V-for')
 
 
+# (4) chained comparisons: every operator in every position, a literal (0 and a non-zero constant) at either
+# end or in the middle, in both polarities.  A chain that *fails* says nothing about which link broke, so both
+# tested variables are read in both arms (`abs` under REAL keeps the class of its operand).
+V_OPS = ('==', '!=', '<', '<=', '>', '>=')
+V_CHAIN_POOL = [float('nan'), float('inf'), float('-inf'), 0.0, -0.0, 1.0, 2.0, -3.0]
+
+
+def v_chain_conds() -> Iterator[str]:
+    for lit in ('0', '1'):
+        for o1 in V_OPS:
+            for o2 in V_OPS:
+                yield f'{lit} {o1} u {o2} v'            # literal first
+                yield f'u {o1} {lit} {o2} v'            # literal in the middle
+                yield f'u {o1} v {o2} {lit}'            # literal last
+                for o3 in ('!=', '<='):
+                    yield f'{lit} {o1} u {o2} v {o3} 2'  # three links
+
+
+def family_V_chain() -> Iterator[Prog]:
+    arm = '(abs(u), abs(v))'
+    for c in v_chain_conds():
+        body = ['with fp.REAL:', f'    if {c}:', f'        r = {arm}', '    else:', f'        r = {arm}', 'return r']
+        yield make_prog('V', body, 'V-chain')
+        body = ['with fp.REAL:', f'    if not ({c}):', f'        r = {arm}', '    else:', f'        r = {arm}', 'return r']
+        yield make_prog('V', body, 'V-chain')
+        body = ['with fp.REAL:', f'    r = ({arm} if {c} else {arm})', f'    s = ({arm} if not ({c}) else {arm})',
+                'return (r, s)']
+        yield make_prog('V', body, 'V-chain')
+
+
 # ----------------------------------------------------------------------
 # Family L
 
@@ -521,7 +551,10 @@ V_QUICK_V = [NAN, INF, 0.0, -3.0]      # one value per class
 
 def inputs(prog: Prog, tier: str = 'thorough') -> list[tuple]:
     pool = POOLS[prog.fam]
-    if tier == 'quick' and prog.fam == 'V':
+    if prog.tag == 'V-chain':
+        # equal pairs (both zero, both non-zero, both infinite), pairs where only a later link fails, NaNs
+        pool = dict(pool, u=V_CHAIN_POOL, v=V_CHAIN_POOL)
+    elif tier == 'quick' and prog.fam == 'V':
         pool = dict(pool, v=V_QUICK_V)
     return list(itertools.product(*[pool[a] for a in prog.args]))
 
@@ -570,6 +603,7 @@ def space(tier: str, seed: int = 0):
             ('J<=3', lambda: family_J(3), None),
             ('J=4', lambda: family_J(4, True), (seed % 16, 16)),
             ('Vquick', lambda: family_V('quick'), None),
+            ('Vchain', family_V_chain, None),
             ('L<=2', lambda: family_L(2, False), None),
             ('L=3core', lambda: family_L(3, True, True), None),
             ('Z<=2', lambda: family_Z(2, False), None),
@@ -578,6 +612,7 @@ def space(tier: str, seed: int = 0):
     return [
         ('J<=4', lambda: family_J(4), None),
         ('V', lambda: family_V('thorough'), None),
+        ('Vchain', family_V_chain, None),
         ('L<=3', lambda: family_L(3, False), None),
         ('Z<=2', lambda: family_Z(2, False), None),
         ('Z=3core', lambda: family_Z(3, True, True), None),
